@@ -76,4 +76,4 @@ def run(R, tier, rng):
 
 
 def translator_tie():
-    return vlib.translator_tie(["view"])
+    return vlib.translator_tie(["view", "elem"])
